@@ -4,7 +4,11 @@ stdin: JSON list of scenarios; stdout: JSON list of results.
 scenario = {'ports': [{'id': 'p0', 'kind': K, 'value': v}], 'script': [cmd...]}
   K: 'hint' (harness number port, integer), 'hnum' (harness number port), 'hbool' (harness boolean port),
      'vint' / 'vnum' / 'vbool' (the hub's own qtoggleserver.core.vports.VirtualPort)
+  port spec may carry 'internal': true (the `internal` attribute of the port)
   cmd: ['expr', pid, text]   assign a value expression through set_attr (text '' removes it)
+       ['expr-in-handler', pid, text, src, value]   the device behind harness port `src` now shows `value`; while a synchronous
+                             (FIRE_AND_FORGET = False) event handler is busy with the value-change event of `src`, i.e. in the
+                             middle of the polling pass, another task assigns the expression to `pid`
        ['set', pid, value]   the device behind a harness port now shows `value` (None = unavailable);
                              for a virtual port: the value is written through the hub (transform_and_write_value)
        ['disable', pid] / ['enable', pid]      (only ports without an expression)
@@ -44,7 +48,7 @@ def main():
     out = []
     for sc in scenarios:
         try:
-            out.append(asyncio.run(run_scenario(sc)))
+            out.append(asyncio.run(asyncio.wait_for(run_scenario(sc), 60)))
         except Exception:  # noqa
             import traceback
             out.append({'error': traceback.format_exc()[-1500:]})
@@ -57,6 +61,30 @@ async def run_scenario(sc):
     settings.persist.file_path = None
     from qtoggleserver.core import expressions  # noqa: F401 (import order)
     from qtoggleserver.core import main, ports as core_ports, vports as core_vports
+
+    from qtoggleserver.core import events as core_events
+    from qtoggleserver.core.events import handlers as events_handlers
+
+    armed = []      # [pid, text, src]: assignments to perform while the event handler is suspended
+    side_tasks = []
+
+    class MidPassHandler(core_events.Handler):
+        FIRE_AND_FORGET = False
+
+        async def handle_event(self, event):
+            if not isinstance(event, core_events.ValueChange) or not armed:
+                return
+            if event.get_port().get_id() != armed[0][2]:
+                return
+            pid, text, _src = armed.pop(0)
+            # the assignment runs in its own task (an API request arriving now) while this handler - and with it the polling
+            # pass that awaits it - is suspended; set_attr itself ends by waiting for the pass to finish
+            side_tasks.append(asyncio.create_task(core_ports.get(pid).set_attr('expression', text)))
+            for _ in range(6):
+                await asyncio.sleep(0)
+
+    events_handlers._registered_handlers[:] = [MidPassHandler()]
+    events_handlers._enabled = True
 
     class HPort(core_ports.Port):
         WRITABLE = True
@@ -72,10 +100,10 @@ async def run_scenario(sc):
         async def write_value(self, value):
             self.store = value
 
-    def hclass(kind):
+    def hclass(kind, internal):
         return type('HPort_' + kind, (HPort,), {
             'TYPE': core_ports.TYPE_BOOLEAN if kind == 'hbool' else core_ports.TYPE_NUMBER,
-            'INTEGER': kind == 'hint'})
+            'INTEGER': kind == 'hint', 'INTERNAL': bool(internal)})
 
     # reset module state
     for p in list(core_ports._ports_by_id.values()):
@@ -97,7 +125,7 @@ async def run_scenario(sc):
         k = ps['kind']
         kinds[ps['id']] = k
         if k.startswith('h'):
-            args.append({'driver': hclass(k), 'port_id': ps['id'], 'kind': k, 'value': dec(ps['value'])})
+            args.append({'driver': hclass(k, ps.get('internal')), 'port_id': ps['id'], 'kind': k, 'value': dec(ps['value'])})
         else:
             args.append({'driver': core_vports.VirtualPort, 'id_': ps['id'],
                          'type_': core_ports.TYPE_BOOLEAN if k == 'vbool' else core_ports.TYPE_NUMBER,
@@ -106,6 +134,9 @@ async def run_scenario(sc):
     by_id = {p.get_id(): p for p in ports}
     for p in ports:
         await p.enable()
+    for ps in sc['ports']:
+        if not ps['kind'].startswith('h') and ps.get('internal'):
+            await by_id[ps['id']].set_attr('internal', True)
     for ps in sc['ports']:
         if not ps['kind'].startswith('h') and ps['value'] is not None:
             await by_id[ps['id']].transform_and_write_value(dec(ps['value']))
@@ -138,6 +169,9 @@ async def run_scenario(sc):
             p = by_id[cmd[1]]
             if op == 'expr':
                 await p.set_attr('expression', cmd[2])
+            elif op == 'expr-in-handler':
+                armed.append([cmd[1], cmd[2], cmd[3]])
+                by_id[cmd[3]].store = dec(cmd[4])
             elif op == 'set':
                 v = dec(cmd[2])
                 if kinds[cmd[1]].startswith('h'):
@@ -151,6 +185,9 @@ async def run_scenario(sc):
             else:
                 raise ValueError(cmd)
             quiescent = await settle()
+            while side_tasks:
+                await side_tasks.pop()
+                quiescent = await settle()
     except Exception as e:  # noqa
         import traceback
         error = traceback.format_exc()[-1200:]
@@ -165,7 +202,8 @@ async def run_scenario(sc):
                 t.cancel()
     await asyncio.sleep(0)
     core_ports._ports_by_id.clear()
-    return {'ports': out, 'quiescent': quiescent, 'error': error}
+    events_handlers._registered_handlers[:] = []
+    return {'ports': out, 'quiescent': quiescent, 'error': error, 'armed_left': len(armed)}
 
 
 if __name__ == '__main__':
